@@ -468,6 +468,30 @@ def int_from_bytes(data, byteorder='big', signed=False):
 _BUILTIN_HOOKS[int.from_bytes] = lambda a, k: int_from_bytes(*a, **k) if isinstance(a[0], SymBytes) else NotImplemented
 
 
+def crc32_model(data, value=0):
+    """bit-precise zlib.crc32 (reflected CRC-32, poly 0xEDB88320) over symbolic bytes, branch-free"""
+    from .symint import ite
+    crc = (value ^ 0xFFFFFFFF) & 0xFFFFFFFF
+    for b in items_of(data):
+        crc = crc ^ b
+        for _ in range(8):
+            low = crc & 1
+            crc = ite(low == 1, (crc >> 1) ^ 0xEDB88320, crc >> 1) if isinstance(low, SymInt) else \
+                ((crc >> 1) ^ 0xEDB88320 if low else crc >> 1)
+    return crc ^ 0xFFFFFFFF
+
+
+def _h_crc32(a, k):
+    if isinstance(a[0], SymBytes) or (len(a) > 1 and type(a[1]) is SymInt):
+        used('zlib.crc32')
+        return crc32_model(*a)
+    return NotImplemented
+
+
+import zlib as _zlib
+_BUILTIN_HOOKS[_zlib.crc32] = _h_crc32
+
+
 # ---- operators ----------------------------------------------------------------
 def mod(l, r):
     if type(l) is str or type(l) is bytes:
@@ -502,6 +526,17 @@ def in_(x, container, neg):
     if neg:
         return x not in container
     return x in container
+
+
+def issym_(c):
+    return isinstance(c, SymBool)
+
+
+def ite_(c, a, b):
+    from .symint import ite, lift
+    if lift(a) is not None and lift(b) is not None:
+        return ite(c, a, b)
+    return a if bool(c) else b
 
 
 def fstr(*parts):
